@@ -39,6 +39,29 @@ Proof. exact restrict_spec. Qed.
 Theorem C48_oracle_sound : forall c, check_C48 c = true <-> case_spec_full c.
 Proof. exact check_C48_iff. Qed.
 
+(* TWO blob types, one overflow map, Values() in its real order (concatenation over the sub-indexes,
+   each listing data then tree entries), seen[] per type: every member of a mixed-type set is
+   enumerated exactly once, Len() is the number of distinct members, Get has map semantics per
+   handle — whatever is duplicated within or across sub-indexes, whatever lies in between *)
+Theorem C48_two_typed_spec : forall main2 rest2 capD capT ops,
+  let a := run2 main2 (new_set2 capD capT) ops in
+  NoDup (map fst (all2 main2 rest2 a)) /\
+  (forall h v, In (h, v) (all2 main2 rest2 a) <-> assoc (snd h) (ref_run (ops_of (fst h) ops)) = Some v) /\
+  len2 main2 rest2 a = length (ref_run (ops_of false ops)) + length (ref_run (ops_of true ops)) /\
+  (forall h, get2 main2 a h = assoc (snd h) (ref_run (ops_of (fst h) ops))).
+Proof. exact model2_spec. Qed.
+
+(* the interleaved two-type enumeration, viewed per type, is the one-type enumeration *)
+Theorem C48_two_typed_projection : forall main2 rest2 a t,
+  projr t (all2 main2 rest2 a) = all (proj t main2) (proj t rest2) (sel a t).
+Proof. exact all2_proj. Qed.
+
+Theorem C48_oracle2_sound : forall c, check_C48_2 c = true <-> case2_spec c.
+Proof. exact check_C48_2_iff. Qed.
+
+Print Assumptions C48_two_typed_spec.
+Print Assumptions C48_two_typed_projection.
+Print Assumptions C48_oracle2_sound.
 Print Assumptions C48_get_set_delete_spec.
 Print Assumptions C48_all_nodup.
 Print Assumptions C48_len_eq_card.
